@@ -254,7 +254,7 @@ class BaseClient:
                     if event.new_state != initial:
                         release = True
 
-            if release:
+            if release and not lock.is_set():
                 result.event = event
                 lock.set()
 
